@@ -3,5 +3,5 @@ Require Extraction.
 Require Import ExtrOcamlBasic.
 Extraction Language OCaml.
 Extraction "../ocaml/c05/model.ml" util_add util_mul util_divmod session_unused_z N.ltb
-  acc_step acc_snapshot acc_restore acc_init acc_save_table default_cap classify
+  acc_step acc_snapshot acc_restore acc_install acc_init acc_save_table default_cap classify
   c_new c_prepare_for_propose c_prepare_for_register c_prepare_for_unregister c_proposal_completed.
